@@ -27,6 +27,7 @@ Inductive jexp :=
 | JBin (o : jbinop) (a b : jexp)
 | JCall (cls meth : string) (args : list jexp)
 | JNotImpl                             (* GJ_NotImpl: the back end refuses the builtin *)
+| JThrows (meth : string)              (* foamj.Math method whose body is `throw new RuntimeException()` *)
 | JOpaque (why : string).              (* the translator could not embed the row *)
 
 Record jrow := mkjrow { jname : string; jargs : list fty; jret : fty; jbody : jexp }.
